@@ -108,4 +108,65 @@ Proof. induction n as [|f IH]; intros M H d Hd.
         with (p * ((d0 + s / p) * (d0 + s / p)) + (quad M' d' - s * s / p)) by (field; auto).
       apply nn_add; auto. apply nn_mul; auto. apply sq_nn.
 Qed.
+
+(* ---- the matrix I - alpha A^T A, built row of A by row of A, and its quadratic form ---- *)
+Definition outer (r : vec) : mat := map (fun ri => vscale F ri r) r.
+Definition msubs (alpha : K) (M G : mat) : mat :=
+  map2 (fun r1 r2 => map2 (fun a b => a - alpha * b) r1 r2) M G.
+Definition idm (n : nat) : mat := map (fun i => unit F n i) (seq 0 n).
+Fixpoint stepmat (n : nat) (alpha : K) (A : mat) : mat :=
+  match A with [] => idm n | r :: A' => msubs alpha (stepmat n alpha A') (outer r) end.
+Definition sq (n : nat) (M : mat) : Prop := length M = n /\ Forall (fun r => length r = n) M.
+
+Lemma row_sub alpha (r1 r2 d : vec) : length r1 = length r2 ->
+  dotu F (map2 (fun a b => a - alpha * b) r1 r2) d = dotu F r1 d - alpha * dotu F r2 d.
+Proof. revert r2 d; induction r1 as [|a r1 IH]; intros [|b r2] [|c d] H; simpl in *; try discriminate; try ring.
+  rewrite IH by lia. ring. Qed.
+Lemma quad_msubs n alpha M G d : sq n M -> sq n G -> quad (msubs alpha M G) d = quad M d - alpha * quad G d.
+Proof. intros [LM WM] [LG WG]. unfold quad, msubs, mv. rewrite map_map2.
+  assert (L : length M = length G) by lia. clear LM LG.
+  generalize d at 1 3 5. revert G L WG. induction M as [|r1 M IH]; intros [|r2 G] L WG dd; simpl in *; try discriminate.
+  - destruct dd; simpl; ring.
+  - inversion WM; inversion WG; subst. destruct dd as [|x dd]; simpl; [ring|].
+    rewrite IH by (auto; lia). rewrite row_sub by lia. ring. Qed.
+Lemma sq_msubs n alpha M G : sq n M -> sq n G -> sq n (msubs alpha M G).
+Proof. intros [LM WM] [LG WG]. unfold msubs. split. rewrite map2_length; lia.
+  assert (L : length M = length G) by lia. clear LM LG. revert G L WG.
+  induction M as [|r1 M IH]; intros [|r2 G] L WG; simpl in *; try discriminate; constructor.
+  - inversion WM; inversion WG; subst. rewrite map2_length. lia.
+  - inversion WM; inversion WG; subst. apply IH; auto. Qed.
+Lemma sq_outer n r : length r = n -> sq n (outer r).
+Proof. intros H. unfold outer. split. rewrite map_length; auto.
+  apply Forall_map. apply Forall_forall. intros x _. rewrite vscale_length; auto. Qed.
+Lemma quad_outer r d : quad (outer r) d = dotu F r d * dotu F r d.
+Proof. unfold quad, outer, mv. rewrite map_map.
+  assert (E : map (fun x => dotu F (vscale F x r) d) r = vscale F (dotu F r d) r).
+  { unfold vscale at 2. apply map_ext. intros a. rewrite dotu_vscale_l. ring. }
+  rewrite E, dotu_vscale_r, (dotu_comm F d r). ring. Qed.
+Lemma sq_idm n : sq n (idm n).
+Proof. unfold idm. split. rewrite map_length, seq_length; auto.
+  apply Forall_map. apply Forall_forall. intros x _. apply unit_length. Qed.
+Lemma map_nth_seq (d : vec) k : map (fun i => nth (i - k) d 0) (seq k (length d)) = d.
+Proof. revert k; induction d as [|a d IH]; intros k; simpl; auto. f_equal.
+  - replace (k - k)%nat with 0%nat by lia. reflexivity.
+  - rewrite <- (IH (S k)) at 2. apply map_ext_in. intros i Hi. apply in_seq in Hi.
+    replace (i - k)%nat with (S (i - S k)) by lia. reflexivity. Qed.
+Lemma mv_idm n d : length d = n -> mv F (idm n) d = d.
+Proof. intros H. unfold mv, idm. rewrite map_map. subst n. etransitivity; [|apply (map_nth_seq d 0)].
+  apply map_ext_in. intros i Hi. apply in_seq in Hi. rewrite dotu_comm, dotu_unit by lia.
+  replace (i - 0)%nat with i by lia. reflexivity. Qed.
+Lemma sq_stepmat n alpha A : wfM F n A -> sq n (stepmat n alpha A).
+Proof. induction 1; simpl. apply sq_idm. apply sq_msubs; auto. apply sq_outer; auto. Qed.
+Theorem stepmat_quad n alpha A d : wfM F n A -> length d = n ->
+  quad (stepmat n alpha A) d = nrm2 F d - alpha * nrm2 F (mv F A d).
+Proof. intros W Hd. induction W as [|r A Hr W IH]; simpl.
+  - unfold quad. rewrite mv_idm by auto. unfold nrm2; simpl. ring.
+  - rewrite (quad_msubs n) by (auto using sq_stepmat, sq_outer). rewrite IH, quad_outer.
+    unfold nrm2; simpl. ring. Qed.
+
+(* the step-size premise of ista_descent from the executable certificate *)
+Theorem premise_of_psd n alpha A : wfM F n A -> psd n (stepmat n alpha A) = true ->
+  forall d, length d = n -> alpha * nrm2 F (mv F A d) <= nrm2 F d.
+Proof. intros W H d Hd. pose proof (psd_sound n _ H d Hd) as Q. rewrite stepmat_quad in Q by auto.
+  apply le_sub; auto. Qed.
 End PSD.
